@@ -71,6 +71,9 @@ pub struct Res {
     pub verdict: Option<(String, Value)>,
     /// whether the circuit produced values
     pub circuit_ok: bool,
+    /// further (case line, implementation answer) pairs belonging to the same case
+    /// (`idft`: the build-time coefficient vector, recomputed by the model from the column)
+    pub extra: Vec<(String, String)>,
 }
 
 mod extracted {
@@ -167,6 +170,11 @@ pub fn main(args: &crate::Args) {
         evaluations += 1;
         writeln!(cases, "{}", res.line).unwrap();
         writeln!(implo, "{}", res.impl_line).unwrap();
+        for (l, a) in &res.extra {
+            writeln!(cases, "{l}").unwrap();
+            writeln!(implo, "{a}").unwrap();
+            bump(&mut hist, "extra-lines.idft");
+        }
         distinct.insert(res.line.clone());
         bump(&mut hist, &format!("gadget.{}.{}", spec.gadget, spec.field));
         bump(&mut hist, &format!("outcome.{}.{}", spec.gadget, if res.circuit_ok { "value" } else { "fails" }));
